@@ -375,6 +375,11 @@ class Ctx:
             for fd in v['fields']:
                 fields.append((v['n'], fd['n']))
         covered = {}
+        lossy_only = set()
+        ftypes = {}
+        for v in adt['variants']:
+            for fd in v['fields']:
+                ftypes[(v['n'] if is_enum else None, fd['n'])] = fd['ty']
         for g in f.family():
             body = g.body
             # consumer sinks of this body
@@ -429,11 +434,19 @@ class Ctx:
                 elif t[0] == 'sw' and t[1][0] in ('copy', 'move'):
                     pass
             for fname, starts in reads.items():
-                if fname in covered:
+                if fname in covered and fname not in lossy_only:
                     continue
-                derived = flows_forward(body, starts, True)
+                seq = ftypes.get(fname, '').startswith(('std::vec::Vec<', 'std::collections::vec_deque::VecDeque<', '[', '&['))
+                from engine import LOSSY_COLLECTIONS
+                starts_ok = set(starts)
+                if seq:
+                    starts_ok = {l for l in starts if not any(x in body.lty(l) for x in LOSSY_COLLECTIONS)}
+                derived = flows_forward(body, starts_ok, True, avoid_types=LOSSY_COLLECTIONS if seq else None) if starts_ok else set()
                 if derived & sink_locals:
                     covered[fname] = fn_short(g.name)
+                    lossy_only.discard(fname)
+                elif seq and flows_forward(body, starts, True) & sink_locals and fname not in covered:
+                    lossy_only.add(fname)
         ok_all = True
         for (vn, fname0) in fields:
             fname = (vn, fname0) if is_enum else (None, fname0)
@@ -445,7 +458,11 @@ class Ctx:
             if fname0 in exempt or fq in exempt:
                 self.report.info(clause, '%s.%s exempt in %s: %s' % (fn_short(adt_name), fq, fn_short(f.name), exempt.get(fq, exempt.get(fname0))))
                 continue
-            if fname in covered:
+            if fname in lossy_only and not str(covered.get(fname, '')).endswith('consumer)'):
+                ok_all = False
+                self.report.violation(clause, 'R4', inst, k + ':order', 'the sequence field `%s` reaches the consumer only through an order / '
+                                      'multiplicity normalising collection (map / set): permuted or duplicated elements are not distinguished' % fq, f.loc())
+            elif fname in covered:
                 self.report.ok(clause, 'R4', inst, 'via %s' % covered[fname], f.loc())
             else:
                 ok_all = False
@@ -453,4 +470,55 @@ class Ctx:
                     fq, adt_name, f.name), f.loc())
         if not fields:
             self.report.violation(clause, 'R4', '%s has fields' % adt_name, 'cover:%s:vacuous' % fn_short(adt_name), 'no fields found', f.loc())
+        return ok_all
+
+
+    # ---- same-name field mapping of a conversion
+    def field_mapping(self, clause, src_adt_pat, dst_adt_pat, fn_or_pat, exempt=None, desc='', src_prefix=None):
+        """In a conversion fn, every field name common to source and target ADT: the operand building
+        target.field derives (through moves / clone / into / try_into / map / transpose / with_context / ?) from
+        source.field - not from another field or a recomputed value."""
+        exempt = exempt or {}
+        try:
+            src = self.ws.adt(src_adt_pat)
+            dst = self.ws.adt(dst_adt_pat)
+        except AnchorMissing as e:
+            self.report.missing(clause, e)
+            return None
+        f = fn_or_pat if not isinstance(fn_or_pat, str) else self.try_fn(clause, fn_or_pat)
+        if f is None:
+            return None
+        sname = src['n'].rsplit('::', 1)[-1]
+        sfields = {fd['n'] for fd in src['variants'][0]['fields']}
+        dfields = [fd['n'] for fd in dst['variants'][0]['fields']]
+        body = f.body
+        agg = None
+        for b in body.blocks:
+            if b.cleanup:
+                continue
+            for (line, pl, rv) in b.stmts:
+                if rv[0] == 'agg' and rv[1] == 'adt' and rv[2] == dst['n']:
+                    agg = (line, rv)
+        if agg is None:
+            self.report.violation(clause, 'R4', '%s builds %s' % (fn_short(f.name), fn_short(dst['n'])), 'mapping:%s:agg' % fn_short(f.name),
+                                  'no aggregate of the target type in the conversion', f.loc())
+            return False
+        line, rv = agg
+        ok_all = True
+        for i, fname in enumerate(dfields):
+            if fname not in sfields:
+                continue
+            inst = '%s: %s.%s <- %s.%s %s' % (fn_short(f.name), fn_short(dst['n']), fname, sname, fname, desc)
+            if fname in exempt:
+                self.report.info(clause, '%s exempt: %s' % (inst, exempt[fname]))
+                continue
+            og = fn_origins(f, rv[5][i], 'adapters')
+            want = '%s.%s' % (src_prefix or ('pty:' + sname), fname)
+            if any(o == want or o.startswith(want + '.') for o in og):
+                self.report.ok(clause, 'R5', inst, '', '%s:%d' % (f.file, line))
+            else:
+                ok_all = False
+                self.report.violation(clause, 'R5', inst, 'mapping:%s:%s' % (fn_short(f.name), fname),
+                                      'the target field is not built from the same-named source field (origins: %s)' % sorted(
+                                          o for o in og if o.startswith(('pty:', 'call:mithril')))[:5], '%s:%d' % (f.file, line))
         return ok_all
